@@ -23,7 +23,7 @@ RULE = (
   "cart+pendulum, 2-hinge arm with optional motor => policy never, limited slider), optional links between trees "
   "(connect/weld/joint/tendon equality switched at run time, limited spatial and fixed tendons), 4 worlds with "
   "different initial velocities and different random perturbation schedules (xfrc/qfrc pulses, velocity kicks on "
-  "awake and sleeping trees, eq_active toggles, ctrl), 300 (quick) / 1500 (thorough) steps of forward+integrator. "
+  "awake and sleeping trees, eq_active toggles, ctrl), 250 (quick) / 1500 (thorough) steps of forward+integrator. "
   "Non-trivial: at least one tree fell asleep and at least one sleeping tree woke; distinct by hash(xml, event list)."
 )
 ASSUMPTIONS = [
@@ -32,6 +32,7 @@ ASSUMPTIONS = [
   "one step = mjw.forward followed by the integrator (the definition of mjw.step); a fraction of cases uses mjw.step itself",
   "lock-step verdicts are gated: equal contact geom-pair multisets, no solver iteration limit, no |dof_length*qvel| "
   "within 5% of sleep_tolerance in either engine",
+  "the c* compaction workspace of a fresh Data is zeroed once by the harness (it is wp.empty memory that the sparse compacted solve may read, see C38)",
   "the launch-order permuter explores serial orders of whole tasks (CPU device); true intra-launch concurrency is out of reach",
 ]
 LEVEL_TEXT = (
@@ -57,18 +58,18 @@ ITER = 10  # the compacted solve runs every iteration on the CPU device (no earl
 
 def cases(tier, seed):
   out = []
-  n = 40 if tier == "quick" else 400
-  steps = 300 if tier == "quick" else 1500
+  n = 32 if tier == "quick" else 400
+  steps = 250 if tier == "quick" else 1500
   for i in range(n):
     out.append(
       {"id": f"hist{seed}_{i}", "kind": "hist", "seed": seed * 100000 + i, "steps": steps, "entry": "step" if i % 5 == 4 else "split", "weight": 3}
     )
-  ns = 12 if tier == "quick" else 80
+  ns = 8 if tier == "quick" else 80
   for i in range(ns):
-    out.append({"id": f"sched{seed}_{i}", "kind": "sched", "seed": seed * 100000 + 5000 + i, "steps": 200 if tier == "quick" else 600, "mode": "perm", "weight": 4})
+    out.append({"id": f"sched{seed}_{i}", "kind": "sched", "seed": seed * 100000 + 5000 + i, "steps": 150 if tier == "quick" else 600, "mode": "perm", "weight": 4})
   nf = 4 if tier == "quick" else 24
   for i in range(nf):
-    out.append({"id": f"wakeorder{seed}_{i}", "kind": "wakeorder", "seed": seed * 100000 + 9000 + i, "mode": "perm", "weight": 1})
+    out.append({"id": f"wakeorder{seed}_{i}", "kind": "wakeorder", "seed": seed * 100000 + 9000 + i, "mode": "perm", "weight": 5})
   return out
 
 
@@ -601,6 +602,24 @@ def build(case, rec):
   return rng, xml, meta, mjm, m, integ
 
 
+CW = ("cM", "cqLD", "crhs", "cx", "cJ", "cMa", "cqfrc_smooth", "cqacc_smooth", "cqacc_warmstart", "cqacc", "cqfrc_constraint")
+
+
+def fresh_data(mjm, m, sts, **caps):
+  """make_data + zeroed compaction workspace.
+
+  The c* scratch arrays are allocated with wp.empty; the compacted solve of a sparse model reads cqfrc_constraint before
+  writing it when a world has no constraint rows (reported under C38).  Zeroing them once makes the histories of this
+  monitor reproducible; the stale-workspace mechanism itself is C38's subject.
+  """
+  d = mw.make_data(mjm, m, sts, **caps)
+  for k in CW:
+    a = getattr(d, k, None)
+    if a is not None and a.size:
+      a.zero_()
+  return d
+
+
 def init_states(rng, mjm, nworld):
   sts = []
   for w in range(nworld):
@@ -629,7 +648,7 @@ def run_hist(case, rec):
     return
   rng, xml, meta, mjm, m, integ = b
   topo = Topo(mjm)
-  d = mw.make_data(mjm, m, init_states(rng, mjm, NWORLD), nconmax=NCONMAX, njmax=NJMAX)
+  d = fresh_data(mjm, m, init_states(rng, mjm, NWORLD), nconmax=NCONMAX, njmax=NJMAX)
   ev = make_events(rng, mjm, topo, case["steps"], NWORLD)
   host = {k: getattr(d, k).numpy().copy() for k in ("xfrc_applied", "qfrc_applied", "eq_active", "ctrl", "qvel")}
   mons = [WorldMon(topo) for _ in range(NWORLD)]
@@ -748,7 +767,7 @@ def run_sched(case, rec):
   sched.start_log()
   runs = {}
   for label, mode, filt in (("identity", 0, None), ("wake_reverse", 1, "wake"), ("wake_random", 2, "wake"), ("all_random", 2, None)):
-    d = mw.make_data(mjm, m, sts, nconmax=NCONMAX, njmax=NJMAX)
+    d = fresh_data(mjm, m, sts, nconmax=NCONMAX, njmax=NJMAX)
     runs[label] = rollout(mjw, sched, m, d, mjm, topo, ev, case["steps"], integ, mode, case["seed"] & 0xFFFF, filt)
   log, names = sched.stop_log()
   rec.cover("kernels_permuted", sorted(n for n in names if "wake" in n or "sleep" in n or "island" in n or "flood" in n or "cycle" in n))
@@ -809,7 +828,7 @@ def run_wakeorder(case, rec):
   res = {}
   sched.reset_counters()
   for label, mode in (("identity", 0), ("reverse", 1), ("random", 2), ("rotate", 3)):
-    d = mw.make_data(mjm, m, [{"qpos": np.array(mjm.qpos0, dtype=np.float32), "qvel": np.zeros(mjm.nv, np.float32)}], nconmax=32, njmax=128)
+    d = fresh_data(mjm, m, [{"qpos": np.array(mjm.qpos0, dtype=np.float32), "qvel": np.zeros(mjm.nv, np.float32)}], nconmax=32, njmax=128)
     ta = np.array([[1, 0, cx, cy]], dtype=np.int32)
     wp.copy(d.tree_asleep, wp.array(ta, dtype=int))
     from mujoco_warp._src import sleep as _sleep
